@@ -1,7 +1,7 @@
 CONSTANTS Depth = 1
  Leaves = {"int"}
  Ctors = {"ptr", "slice", "array3", "array0", "chan", "mapS", "mapK", "struct1", "struct2", "struct3"}
- Targets = {"fixt", "fixt2", "clash-pre"}
+ Targets = {"fixt", "fixt2", "clash-pre", "dotted"}
  Views = {"types"}
 INIT JInit
 NEXT JNext
